@@ -254,6 +254,10 @@ def scn_grid_dataset(c, ci):
     ds, conv = inputs.make_convention(it, c, conv_name, extra=extra, **kw)
     ds.attrs['title'] = 'model'
     ds._vars['temp'].attrs['units'] = 'degC'
+    # attributes that xarray may move into the encoding when it reads the work files back (the CF coordinates list of a dataset opened
+    # without coordinate decoding, a packing attribute): either way they must not be lost, nor end up in both places
+    ds._vars['temp'].attrs['coordinates'] = 'lat lon'
+    ds._vars['count'].attrs['scale_factor'] = 2
     sizes = ds._sizes()
     names = ((mname, fdims),)
     if conv_name == 'ShocStandard':
@@ -301,7 +305,10 @@ def scn_grid_dataset(c, ci):
         if vo is None:
             continue
         c.check(f'{name!r}: dimensions kept', vo.dims == vi.dims)
-        c.check(f'{name!r}: attributes kept', vo.attrs == vi.attrs)
+        both = {**vo.encoding, **vo.attrs}
+        c.check(f'{name!r}: every attribute is kept, as an attribute or (if reading the work files decoded it) in the encoding',
+                all(k in both and both[k] == v for k, v in vi.attrs.items()) and set(vo.attrs) <= set(vi.attrs))
+        c.check(f'{name!r}: no name is in both the attributes and the encoding (such a variable cannot be written)', not (set(vo.attrs) & set(vo.encoding)))
         p = {}
         for d in vi.dims:
             q = c.fresh_int(f'{d}_q')
